@@ -657,6 +657,140 @@ class SimpleShuffleLayer(Spec):
 
 
 # ---------------------------------------------------------------------------------------------
+class DiskShuffleLayer(Spec):
+    """DiskShuffle._layer: one on-disk store p; every input partition i is grouped into the store by one task
+    (name, i); a barrier task depends on ALL of these; output j collects group P[j] from the store and depends on the
+    barrier - so no output is read before every input partition has been written, and output j holds group P[j]."""
+
+    file, qualname, props = "dask_expr/_shuffle.py", "DiskShuffle._layer", ["C12", "C09", "C11"]
+    assumptions = [
+        "uuid.uuid1().hex is a token no other name contains (A-names); partd_encode_dispatch / maybe_buffered_partd are opaque constructors",
+        "toolz.merge(d1, ..., dk) is modelled as successive dict.update (later mappings win), its documented meaning",
+        "Expr.__dask_keys__ of the input frame is [(frame._name, i) for i < frame.npartitions] (assumed callee contract; C09's run-time contract checks it on every corpus graph)",
+    ]
+
+    def make_inputs(self, ex, sym, fr):
+        n_in = sym.int("n_in", lo=0)
+        n_out = sym.int("n_out", lo=1)
+        P = sym.seq("P", kind="list")
+        frame = _dep("self.frame", n_in)
+        frame.attrs["_meta"] = Opaque("frame-meta")
+
+        def dask_keys(ex_, fr_, frame=frame, n_in=n_in):
+            # Expr.__dask_keys__: [(self._name, i) for i in range(self.npartitions)]  (assumed; checked by C09's run-time contract)
+            return Seq(n_in, lambda k, fname=frame.attrs["_name"]: (fname, k), "list")
+
+        dask_keys._is_contract_fn = True
+        frame.attrs["__dask_keys__"] = dask_keys
+        s = Obj(
+            "self",
+            {"frame": frame, "_name": NameStr("", "self"), "npartitions_out": n_out, "_partitions": P, "partitioning_index": Opaque("partitioning_index"), "_shuffle_group": Opaque("self._shuffle_group")},
+            cls=("DiskShuffle", "SimpleShuffle", "Expr"),
+        )
+        return {"self": s, "n_in": n_in, "n_out": n_out, "P": P, "_tok": NameStr("", "uuid")}
+
+    def call(self, ex, fr, name, args, kwargs):
+        if name == "uuid.uuid1":
+            return Obj("uuid", {"hex": NameStr("", "uuid")}, cls=("UUID",))
+        if name == "partd_encode_dispatch":
+            return Opaque("encode_cls")
+        if name == "maybe_buffered_partd":
+            return Opaque("partd-factory")
+        if name == "toolz.merge":
+            out = ex.new_dict(fr)
+            for a in args:
+                fr.heap[out.oid] = fr.heap[out.oid].extend(fr.heap[a.oid].entries)
+            return out
+        return NotImplemented
+
+    def requires(self):
+        return {"selection-in-range": lambda c, e: c.forall(0, c.len(e["P"]), lambda g: c.And(c.at(e["P"], g) >= 0, c.at(e["P"], g) < e["n_out"]))}
+
+    def ensures(self):
+        def names(c, e):
+            t = e["_tok"]
+            if isinstance(t, NameStr):
+                mk = lambda pre: NameStr(pre + t.prefix, t.atom, t.suffix)
+            else:
+                mk = lambda pre: pre + t
+            return c.attr(e["self"], "_name"), (mk("zpartd-"),), mk("shuffle-partition-"), (mk("barrier-"),)
+
+        def is_(c, a, b):
+            return (c.eq(a, b) is True) if c.symbolic else a == b
+
+        def outputs(c, e, r):
+            own, store, part, bar = names(c, e)
+            return c.forall(
+                0, c.len(e["P"]),
+                lambda j: c.holds_at(r, (own, j), lambda v: len(v) == 5 and c.And(c.eq(v[0], c.fn("collect")), c.eq(v[1], store), c.eq(v[2], c.at(e["P"], j)), c.eq(v[3], c.attr(e["self"], "frame._meta")), c.eq(v[4], bar))),
+            )
+
+        def writes(c, e, r):
+            own, store, part, bar = names(c, e)
+            return c.forall(
+                0, e["n_in"],
+                lambda i: c.holds_at(
+                    r, (part, i),
+                    lambda v: len(v) == 5 and c.And(c.eq(v[0], c.attr(e["self"], "_shuffle_group")), c.eq(v[1], (c.attr(e["self"], "frame._name"), i)), c.eq(v[2], c.attr(e["self"], "partitioning_index")), c.eq(v[3], e["P"]), c.eq(v[4], store)),
+                ),
+            )
+
+        def barrier(c, e, r):
+            own, store, part, bar = names(c, e)
+            return c.holds_at(r, bar, lambda v: len(v) == 2 and c.And(c.eq(v[0], c.fn("barrier")), c.eq(c.len(v[1]), e["n_in"]), c.forall(0, e["n_in"], lambda i: c.eq(c.at(v[1], i), (part, i)))))
+
+        def store_defined(c, e, r):
+            own, store, part, bar = names(c, e)
+            return c.defined(r, store)
+
+        def k3(c, e, r):
+            own, store, part, bar = names(c, e)
+
+            def one(k, v):
+                if len(k) == 1:
+                    return c.Or(c.eq(k, store), c.eq(k, bar))
+                if len(k) != 2:
+                    return False
+                if is_(c, k[0], own):
+                    return c.And(k[1] >= 0, k[1] < c.len(e["P"]))
+                return c.And(c.eq(k[0], part), k[1] >= 0, k[1] < e["n_in"])
+
+            return c.forall_entries(r, one)
+
+        return {"K1-outputs-collect-their-group-after-the-barrier": outputs, "every-input-partition-is-written": writes, "barrier-waits-for-every-write": barrier, "K2-store-defined": store_defined, "K3-only-own-keys": k3}
+
+    def concrete_globals(self):
+        import dask_expr._shuffle as m
+
+        return vars(m)
+
+    def concrete_inputs(self):
+        for n_in in range(1, 4):
+            for n_out in range(1, 4):
+                yield {"n_in": n_in, "n_out": n_out, "P": None}
+                for P in ([0], [n_out - 1], list(range(n_out))[::-1]):
+                    yield {"n_in": n_in, "n_out": n_out, "P": P}
+
+    def concrete_env(self, inputs):
+        return None
+
+    def run_concrete(self, inputs):
+        from dask_expr._shuffle import DiskShuffle
+
+        fr = stub_frame(npartitions=inputs["n_in"])
+        obj = DiskShuffle(fr, "x", inputs["n_out"], False, {}, inputs["P"])
+        layer = obj._layer()
+        tok = [k[0] for k in layer if len(k) == 1 and k[0].startswith("zpartd-")][0][len("zpartd-"):]
+        return {"self": obj, "n_in": inputs["n_in"], "n_out": inputs["n_out"], "P": obj._partitions, "_tok": tok}, layer
+
+    def inputs_from_model(self, model, sz, sym):
+        n_in, n_out, P = sym.read_int(model, "n_in"), sym.read_int(model, "n_out"), sym.read_seq(model, "P")
+        if n_in is None or n_out is None or P is None or not (0 <= n_in <= 30 and 1 <= n_out <= 30 and len(P) <= 30):
+            return None
+        return {"n_in": max(1, n_in), "n_out": n_out, "P": list(P)}
+
+
+# ---------------------------------------------------------------------------------------------
 class TaskShuffleTail(Spec):
     """TaskShuffle._layer, final block (`if npartitions != npartitions_input:`): after the staged shuffle into
     npartitions_input partitions named `name`, stage partition q is regrouped by the final partition number
@@ -1016,4 +1150,4 @@ def _scenarios():
     return out
 
 
-SPECS = [CumulativeFinalizeLayer(), FromGraphLayer(), MoreNSplits(), MoreDivisions(), MoreLayer(), SizeLayer(), SimpleShuffleLayer(), TaskShuffleTail(), BroadcastDep(), BlockwiseArg()] + _scenarios()
+SPECS = [CumulativeFinalizeLayer(), FromGraphLayer(), MoreNSplits(), MoreDivisions(), MoreLayer(), SizeLayer(), SimpleShuffleLayer(), DiskShuffleLayer(), TaskShuffleTail(), BroadcastDep(), BlockwiseArg()] + _scenarios()
